@@ -101,6 +101,10 @@ def rand_bool(percent_chance: NumberType = 50) -> bool:
     return bool(random.randrange(100) < percent_chance)
 
 
+def _variable_pool(common: bool = False) -> List[str]:
+    return common_variables if common is True else variables
+
+
 def rand_var(common: bool = False) -> str:
     if common is True:
         return common_variables[random.randint(0, len(common_variables) - 1)]
@@ -189,20 +193,13 @@ def get_rand_vars(
         exclude_vars = []
     if num_vars > 25:
         raise ValueError("out of range: there are only twenty-six variables")
-    rand_vars: Set[str] = set()
-    iters = 0
-    while len(rand_vars) < num_vars:
-        _rand = rand_var(common_variables)
-        if _rand not in exclude_vars:
-            rand_vars.add(_rand)
-        iters += 1
-        if iters > num_vars * 10:
-            raise ValueError(
-                f"Unable to fulfill request for {num_vars} random variables"
-            )
-    out = list(rand_vars)
-    random.shuffle(out)
-    return out
+    # Draw without replacement from the variables that are allowed, so that any request
+    # that can be fulfilled is fulfilled, whatever the random stream looks like
+    available = [v for v in _variable_pool(common_variables) if v not in exclude_vars]
+    if num_vars > len(available):
+        raise ValueError(f"Unable to fulfill request for {num_vars} random variables")
+    random.shuffle(available)
+    return available[:num_vars]
 
 
 def gen_binomial_times_binomial(
@@ -476,6 +473,8 @@ def gen_combine_terms_in_place(
     """
 
     total_terms = random.randint(min_terms, max_terms)
+    # Every noise term needs its own variable, distinct from the focus variable
+    total_terms = min(total_terms, len(variables) + 1)
     var = rand_var()
     power_chance = 80 if powers is True else 0
     power = maybe_power(power_chance)
